@@ -533,6 +533,22 @@ fn opt_search(pid: &str, s: &mut Search, rng: &mut Rng) {
                     *c = t.join(" ");
                 }
             }
+            if rng.chance(1, 4) {
+                // cells of the two families no built-in group uses (library API / JSON): the side ratio and
+                // the angle are fixed there
+                let pi = std::f64::consts::PI;
+                let (fam, ang) = *rng.pick(&[("Hexagonal", pi / 3.0), ("Tetragonal", pi / 2.0)]);
+                let g = *rng.pick(&["p1", "p2"]);
+                let lj = rng.chance(1, 3);
+                let shape = if lj { "ljcircle".to_string() } else { rng.pick(&["circle", "poly 3", "poly 4", "poly 6"]).to_string() };
+                let nn: f64 = if g == "p1" { 1.0 } else { 2.0 };
+                let length = nn.sqrt() * rng.range(2.5, 6.0);
+                let req = format!("oracle opt_chain {} {} crystal {} {} {}@{} {} {} {} 1 {} {} {}", k, cfgs.join(" "), if lj { "lj" } else { "hard" }, shape, g, fam,
+                    fhex(length), fhex(1.0), fhex(ang), fhex(crate::gen::gen_site_coord(rng)), fhex(crate::gen::gen_site_coord(rng)), fhex(rng.range(0.0, 2.0 * pi)));
+                s.class("chain-fixed-family");
+                s.run("Opt.inRange", &req, "c08_chain", "a chain of optimisation stages left the declared ranges / crystal family / finite score", true);
+                continue;
+            }
             let req = format!("oracle opt_chain {} {} crystal {}", k, cfgs.join(" "), crate::gen::gen_state_desc(rng, true));
             s.class("chain");
             s.run("Opt.inRange", &req, "c08_chain", "a chain of optimisation stages left the declared ranges / crystal family / finite score", true);
@@ -844,6 +860,29 @@ fn c01(s: &mut Search, rng: &mut Rng) {
             cfg[1] = "50".to_string();
             let req = format!("oracle after_opt overlap {} crystal {}", cfg.join(" "), gen_hard_state_adversarial(rng));
             s.class("after-optimisation");
+            s.run("Lattice.overlapAnywhere", &req, "c01_overlap", "a scored state has overlapping images", true);
+            continue;
+        }
+        if n % 5 == 0 {
+            // several occupied sites (`initialise(shape, wallpaper, &[site, …])`, JSON): copies of DIFFERENT
+            // sites overlapping inside the cell while every lattice image is far away
+            let pi = std::f64::consts::PI;
+            let g = *rng.pick(&["p1", "p2", "p1m1", "p2gg"]);
+            let mult: f64 = match g { "p1" => 1.0, "p2" | "p1m1" => 2.0, _ => 4.0 };
+            let k = 2 + rng.usize(2);
+            let shape = match rng.below(3) { 0 => "circle".to_string(), 1 => format!("poly {}", *rng.pick(&[3usize, 4, 6])), _ => crate::gen::gen_trimer(rng, "trimer") };
+            let length = (mult * k as f64).sqrt() * rng.range(3.0, 7.0);
+            let mut sites = vec![];
+            let (x0, y0) = (crate::gen::gen_site_coord(rng), crate::gen::gen_site_coord(rng));
+            for i in 0..k {
+                // the later sites near the first one (overlap within the cell) or anywhere
+                let (x, y) = if i > 0 && rng.chance(1, 2) {
+                    (x0 + rng.range(-0.5, 0.5) / length, y0 + rng.range(-0.5, 0.5) / length)
+                } else if i > 0 && rng.chance(1, 4) { (x0, y0) } else { (crate::gen::gen_site_coord(rng), crate::gen::gen_site_coord(rng)) };
+                sites.push(format!("{} {} {}", fhex(x.max(-0.5).min(0.5)), fhex(y.max(-0.5).min(0.5)), fhex(rng.range(0.0, 2.0 * pi))));
+            }
+            let req = format!("oracle c01_overlap hard {} {}+ {} {} {} {} {}", shape, g, fhex(length), fhex(1.0), fhex(pi / 2.0), k, sites.join(" "));
+            s.class("several-sites");
             s.run("Lattice.overlapAnywhere", &req, "c01_overlap", "a scored state has overlapping images", true);
             continue;
         }
